@@ -218,10 +218,14 @@ class DataSaveable:
 
         """
         self.set_data_writable()
-        try:        
-            _data = numpy.loadtxt(filename)
+        # data saved with an axis always have two indices; without `ndmin`
+        # loadtxt drops an index of length one and a single point with its
+        # axis value could not be read back
+        ndmin = 0 if with_axis is None else 2
+        try:
+            _data = numpy.loadtxt(filename, ndmin=ndmin)
         except ValueError:
-            _data = numpy.loadtxt(filename, dtype=complex)
+            _data = numpy.loadtxt(filename, dtype=complex, ndmin=ndmin)
         
         self.data = self._extract_data_with_axis(_data, with_axis)
         self.set_data_protected()            
